@@ -39,9 +39,10 @@ var Def = driver.PropDef{
 }
 
 type rx struct {
-	c    *core.Ctx
-	info *types.Info
-	fn   map[string]*core.Fn
+	pipeReg *region // where the DUMP/PTTL pipelines live (doFetch or a one-level helper)
+	c       *core.Ctx
+	info    *types.Info
+	fn      map[string]*core.Fn
 }
 
 func Run(c *core.Ctx) {
@@ -196,8 +197,11 @@ func intCmp(info *types.Info, f cfgq.Fact, isLHS func(ast.Expr) bool, k int64) (
 		a, b = b, a
 	}
 	v, isC := core.IntConst(info, b)
-	if !isLHS(a) || !isC || v != k {
+	if !isLHS(a) || !isC {
 		return false, false
+	}
+	if v != k { // x == k' with k' != k establishes x != k (case arms of a switch over other constants)
+		return false, (be.Op == token.EQL) == f.Val
 	}
 	return (be.Op == token.EQL) == f.Val, true
 }
